@@ -263,6 +263,7 @@ type crlCase struct {
 	ThisOff    int64
 	NextDelta  int64
 	TZ         int
+	Nanos      int
 	Entries    []crlEntrySpec
 	Extra      []extSpec
 	Deprecated bool // fill the deprecated RevokedCertificates field instead of RevokedCertificateEntries
@@ -273,17 +274,17 @@ func crlTemplate(c crlCase) *x509.RevocationList {
 	t := &x509.RevocationList{
 		SignatureAlgorithm: sigAlgFor(c.KT, c.AlgVariant),
 		Number:             new(big.Int).SetBytes(c.Number),
-		ThisUpdate:         toTime(c.ThisOff, c.TZ),
-		NextUpdate:         toTime(c.ThisOff+c.NextDelta, c.TZ),
+		ThisUpdate:         toTime(c.ThisOff, c.TZ, c.Nanos),
+		NextUpdate:         toTime(c.ThisOff+c.NextDelta, c.TZ, c.Nanos),
 		ExtraExtensions:    toExts(c.Extra),
 	}
 	for _, e := range c.Entries {
 		if c.Deprecated {
 			t.RevokedCertificates = append(t.RevokedCertificates, pkix.RevokedCertificate{
-				SerialNumber: new(big.Int).SetBytes(e.Serial), RevocationTime: toTime(e.TimeOff, c.TZ), Extensions: toExts(e.Extra)})
+				SerialNumber: new(big.Int).SetBytes(e.Serial), RevocationTime: toTime(e.TimeOff, c.TZ, c.Nanos), Extensions: toExts(e.Extra)})
 		} else {
 			t.RevokedCertificateEntries = append(t.RevokedCertificateEntries, x509.RevocationListEntry{
-				SerialNumber: new(big.Int).SetBytes(e.Serial), RevocationTime: toTime(e.TimeOff, c.TZ), ReasonCode: e.Reason, ExtraExtensions: toExts(e.Extra)})
+				SerialNumber: new(big.Int).SetBytes(e.Serial), RevocationTime: toTime(e.TimeOff, c.TZ, c.Nanos), ReasonCode: e.Reason, ExtraExtensions: toExts(e.Extra)})
 		}
 	}
 	return t
@@ -356,8 +357,18 @@ func checkCRL(c crlCase, r *h.Rec) error {
 	if got.Number == nil || got.Number.Cmp(t.Number) != 0 {
 		return fail("Number parsed %v, template %v", got.Number, t.Number)
 	}
-	if !got.ThisUpdate.Equal(t.ThisUpdate) || !got.NextUpdate.Equal(t.NextUpdate) {
+	if !got.ThisUpdate.Equal(t.ThisUpdate.Truncate(time.Second)) || !got.NextUpdate.Equal(t.NextUpdate.Truncate(time.Second)) {
 		return fail("ThisUpdate/NextUpdate parsed %v/%v, template %v/%v", got.ThisUpdate, got.NextUpdate, t.ThisUpdate.UTC(), t.NextUpdate.UTC())
+	}
+	thisEl, nextEl, revEls, terr := crlTimesOf(der)
+	if terr != nil || len(revEls) != len(c.Entries) {
+		return fail("strict DER reader: revocation list times: %v (%d entries)", terr, len(revEls))
+	}
+	if err := checkTimeEncoding("ThisUpdate", thisEl, t.ThisUpdate); err != nil {
+		return fail("%v", err)
+	}
+	if err := checkTimeEncoding("NextUpdate", nextEl, t.NextUpdate); err != nil {
+		return fail("%v", err)
 	}
 	if !bytes.Equal(got.RawIssuer, iss.cert.RawSubject) {
 		return fail("RawIssuer is not the issuer certificate's subject")
@@ -374,7 +385,10 @@ func checkCRL(c crlCase, r *h.Rec) error {
 	for i, e := range c.Entries {
 		g := got.RevokedCertificateEntries[i]
 		wantSerial := new(big.Int).SetBytes(e.Serial)
-		wantTime := toTime(e.TimeOff, c.TZ)
+		wantTime := toTime(e.TimeOff, c.TZ, c.Nanos).Truncate(time.Second)
+		if err := checkTimeEncoding(fmt.Sprintf("entry %d RevocationTime", i), revEls[i], wantTime); err != nil {
+			return fail("%v", err)
+		}
 		if g.SerialNumber.Cmp(wantSerial) != 0 || !g.RevocationTime.Equal(wantTime) {
 			return fail("entry %d parsed serial %v time %v, template %v %v", i, g.SerialNumber, g.RevocationTime, wantSerial, wantTime.UTC())
 		}
@@ -417,6 +431,8 @@ func checkCRL(c crlCase, r *h.Rec) error {
 			r.Label("go-x509-cannot-parse")
 		} else if err := xl.CheckSignatureFrom(xp); err != nil {
 			return fail("Go's crypto/x509 does not verify the created revocation list: %v", err)
+		} else if !xl.ThisUpdate.Equal(got.ThisUpdate) || !xl.NextUpdate.Equal(got.NextUpdate) || !bytes.Equal(xl.RawIssuer, got.RawIssuer) || len(xl.RevokedCertificateEntries) != len(got.RevokedCertificateEntries) {
+			return fail("ThisUpdate / NextUpdate / issuer / entries parsed by smx509 and by Go's crypto/x509 differ")
 		} else {
 			r.Label("go-x509-agrees")
 		}
@@ -442,7 +458,7 @@ func checkCRL(c crlCase, r *h.Rec) error {
 	return nil
 }
 
-var crlTimeOffsets = []int64{0, -1, -86400, -30 * 86400, -20 * 365 * 86400, 3600}
+var crlTimeOffsets = append([]int64{0, -1, -86400, -30 * 86400, -20 * 365 * 86400, 3600, 0, -1, -86400, 3600}, boundaryOffsets...)
 
 func genCRLCase(rt *rapid.T) crlCase {
 	c := crlCase{
@@ -453,6 +469,7 @@ func genCRLCase(rt *rapid.T) crlCase {
 		ThisOff:    rapid.SampledFrom(crlTimeOffsets).Draw(rt, "this"),
 		NextDelta:  rapid.SampledFrom([]int64{0, 1, 86400, 7 * 86400, 30 * 365 * 86400}).Draw(rt, "next"),
 		TZ:         rapid.SampledFrom([]int{0, 0, 480, -330}).Draw(rt, "tz"),
+		Nanos:      genNanos(rt),
 		Deprecated: rapid.IntRange(0, 4).Draw(rt, "deprecated") == 0,
 		Scribble:   rapid.Bool().Draw(rt, "scribble"),
 		Extra:      genExtras(rt, "extra", 2),
